@@ -345,6 +345,31 @@ def _a7(ctx):
     ctx.floor(R, 5)
 
 
+def _a8(ctx, R="C14-A8"):
+    ctx.doc(R, "dirty rounds leave the compressed groups untouched: the pruning job builds new groups (make_pareto(inplace=False)) and never stores into the groups it was given -- "
+               "with one worker the jobs run in-process on the caller's objects, so an in-place prune of round 0 would be what the final exact round joins")
+    pw = ctx.func(JP, "prune_with_tolerance", R)
+    calls = [c for c in pw.calls("make_pareto", into_nested=True)]
+    ctx.require(len(calls) >= 1, R, "make_pareto call of the pruning job")
+    for c in calls:
+        ip = kwarg(c, "inplace")
+        ctx.check(isinstance(ip, ast.Constant) and ip.value is False, R, pw, c, "the dirty-round pruning calls make_pareto in place (its default): when the jobs run in-process (one worker) the shared groups are "
+                  "pruned for good and the final exact round joins the dirty remainder, so the result depends on the worker count", "make_pareto(inplace=False)")
+    params = set(pw.params())
+    for nf in [x for x in ast.walk(pw.node) if isinstance(x, (ast.FunctionDef, ast.AsyncFunctionDef)) and x is not pw.node]:
+        params |= {a.arg for a in nf.args.args}
+    stores = [st for st in pw.walk(into_nested=True) if isinstance(st, (ast.Assign, ast.AugAssign)) for t, v, _ in assigned_targets(st)
+              if isinstance(t, (ast.Attribute, ast.Subscript)) and isinstance(_root(t), ast.Name) and _root(t).id in params]
+    ctx.check(not stores, R, pw, stores[0] if stores else pw.node, "the pruning round stores into the groups it was given", "no store into the given groups")
+    ctx.floor(R, 2)
+
+
+def _root(e):
+    while isinstance(e, (ast.Attribute, ast.Subscript)):
+        e = e.value
+    return e
+
+
 def check(ctx):
     _a7(ctx)
     _a1(ctx)
@@ -352,9 +377,11 @@ def check(ctx):
     _a3(ctx)
     _a5(ctx)
     _a6(ctx)
+    _a8(ctx)
 
 
 VARIANTS = [
+    {"kind": "F", "name": "dirty-prune-in-place", "rule": "C14-A8", "edits": [(JP, "                resource_usage_tolerance=resource_usage_tolerance,\n                inplace=False,\n            ),", "                resource_usage_tolerance=resource_usage_tolerance,\n            ),")]},
     {"kind": "F", "name": "missing-column-skipped", "rule": "C14-A5", "edits": [(JP, "                if k not in edp_mapping.columns:\n                    nondominated |= True\n                else:\n                    nondominated |= edp_mapping[k] <= v", "                if k in edp_mapping.columns:\n                    nondominated |= edp_mapping[k] <= v")]},
     {"kind": "F", "name": "bounding-box-prefilter", "rule": "C14-A5", "edits": [(JP, "        for c in self.compare_to:\n            nondominated = np.zeros", "        for k0, v0 in self.compare_to[0].items():\n            if k0 in edp_mapping.columns:\n                nondominated_by_all &= (edp_mapping[k0] <= v0).to_numpy()\n        for c in self.compare_to:\n            nondominated = np.zeros")]},
     {"kind": "F", "name": "per-column-sorted-reference", "rule": "C14-A5", "edits": [(JP, "        compare_to = compare_to.sort_values(by=compare_cols, ascending=False)\n", "        compare_to = pd.DataFrame(-np.sort(-compare_to[compare_cols].to_numpy(dtype=float), axis=0), columns=compare_cols)\n")]},
